@@ -437,11 +437,20 @@ package fsutil
 //@   property C07 C19 C03
 //@   requires r != nil && r.files != nil && r.pipes != nil && w != nil && metadataBuffer != nil && metadataParents != nil
 //@   requires specVStack(r.orderValidator.parentDirs)
+//@   requires nothing_pending_at_start: len(metadataParents.items) == 0
+//@   opaque specPathLess
 //@   modifies heap
 //@   effects RecvMsg StatRecv RecvDone MuLock MuUnlock Progress ChanSend PipeWrite PipeClose OrderOK LinkOK
 //@   loop 0 invariant id_counter: i == uint32(cnt(StatRecv) - old(cnt(StatRecv)))
 //@   loop 0 invariant maps: r.files == old(r.files) && r.pipes == old(r.pipes)
 //@   loop 0 invariant vwf: specVStack(r.orderValidator.parentDirs)
+// metadata-only mode: the pending (unselected) directories form a chain of direct parents, so
+// what is replayed for a selected entry are its ancestors and nothing else
+//@   loop 0 invariant pending_chain: forall k int, j int :: {metadataParents.items[k], metadataParents.items[j]} 0 <= k && j == k + 1 && j < len(metadataParents.items) ==> metadataParents.items[k].path == filepath.Dir(metadataParents.items[j].path)
+//@   loop 0 invariant pending_exist: forall k int :: {metadataParents.items[k]} 0 <= k && k < len(metadataParents.items) ==> allocated(metadataParents.items[k])
+//@   loop 1 invariant pending_exist: forall k int :: {metadataParents.items[k]} 0 <= k && k < len(metadataParents.items) ==> allocated(metadataParents.items[k])
+//@   loop 1 invariant pending_chain: forall k int, j int :: {metadataParents.items[k], metadataParents.items[j]} 0 <= k && j == k + 1 && j < len(metadataParents.items) ==> metadataParents.items[k].path == filepath.Dir(metadataParents.items[j].path)
+//@   at call stack.push: pending_parent_on_top: len(metadataParents.items) == 0 || metadataParents.items[len(metadataParents.items)-1].path == filepath.Dir(cp.path)
 //@   ensures eof: result == nil ==> arg(RecvDone, 0) == io.EOF
 //@   at call Validator.HandleChange: id_is_stat_position: !metaOnly && specCanRequest(p.Stat.Mode) ==> haskey(r.files, path) && r.files[path] == uint32(cnt(StatRecv) - old(cnt(StatRecv)) - 1)
 //@   at call dynamicWalker.update: validated_before_forward: arg1 != nil ==> when(OrderOK) > when(RecvMsg) && when(LinkOK) > when(RecvMsg)
